@@ -33,7 +33,7 @@ SnowMax(C) == C.MSG - 1                      \* largest message snow accepts (65
 (* frames, attack plan, reader-side stream                                  *)
 \* frame  : [k (nonce), pl (plaintext len), p0 (plaintext position)]
 \* segment: frame + [hb header bytes present, al body bytes present, hl claimed len, good]
-\* plan   : [kind, i, x]
+\* plan   : [kind, i, x, ea, ef]  (ea, ef: see Effective below)
 
 FrameBytes(C, f) == HDR + f.pl + C.TAG
 
@@ -276,16 +276,13 @@ RECURSIVE SumPlain(_, _, _)
 SumPlain(C, fl, n) == IF n = 0 THEN 0 ELSE SumPlain(C, fl, n - 1) + fl[n] - C.TAG
 WirePlain(C, P) == SumPlain(C, P.flen, Len(P.flen))
 
-\* the attack has touched the stream
-Effective(P) ==
-  LET n == Len(P.flen) IN
-  CASE P.plan.kind = "none" -> FALSE
-    [] P.plan.kind = "replay" -> n >= P.plan.i + P.plan.x
-    [] OTHER -> n >= P.plan.i
+\* plan.ea: number of frames that must have left the writer for the attack to have happened;
+\* plan.ef: first frame (in the writer's numbering) whose bytes the reader no longer sees unchanged
+\* (0: the stream is unchanged).  Both are ghost data of the attacker: the model derives them from
+\* the plan, the harness from comparing the real byte streams before and after its attack.
+Effective(P) == P.plan.ef > 0 /\ Len(P.flen) >= P.plan.ea
 \* plaintext position from which on nothing may be delivered any more
-BadFrom(C, P) ==
-  IF P.plan.kind = "replay" THEN SumPlain(C, P.flen, P.plan.i + P.plan.x)
-  ELSE SumPlain(C, P.flen, P.plan.i - 1)
+BadFrom(C, P) == SumPlain(C, P.flen, Min(P.plan.ef - 1, Len(P.flen)))
 Limit(C, P) == IF Effective(P) THEN BadFrom(C, P) ELSE WirePlain(C, P)
 
 FrameBound(C, nf) == \A j \in 1..Len(nf) : nf[j] > C.TAG /\ nf[j] <= SnowMax(C)
